@@ -164,6 +164,29 @@ func peerTagFor(s *Sys, to int) uint32 {
 	return t
 }
 
+// fragments that carry a fragment: the payload of a fragment cannot contain a comma, so what is nested is a fragment
+// prefix that is ignored or refused when the reassembled message is looked at
+func nestedFragments(s *Sys, to int) [][]byte {
+	st := peerTagFor(s, to)
+	rt := otr3.VerifSnapshot(s.ps[to].c).OurTag
+	inner := []string{
+		fmt.Sprintf("?OTR|%08x|%08x", st, rt),
+		fmt.Sprintf("?OTR|%08x|0%08x", st, rt+1),
+		"?OTR|x",
+		"?OTR|",
+	}
+	var out [][]byte
+	for _, in := range inner {
+		out = append(out, []byte(fmt.Sprintf("?OTR|%08x|%08x,00001,00001,%s,", st, rt, in)))
+		out = append(out, []byte(fmt.Sprintf("?OTR|%08x|%08x,00001,00002,%s,", st, rt, in[:3])), []byte(fmt.Sprintf("?OTR|%08x|%08x,00002,00002,%s,", st, rt, in[3:])))
+		out = append(out, []byte(fmt.Sprintf("?OTR,1,1,%s,", in)))
+		out = append(out, []byte(fmt.Sprintf("?OTR,1,2,%s,", in[:4])), []byte(fmt.Sprintf("?OTR,2,2,%s,", in[4:])))
+		// and something that leaves the fragment context alone afterwards
+		out = append(out, []byte(fmt.Sprintf("?OTR|%08x|%08x,00009,00002,zz,", st, rt)), []byte("?OTR,9,2,zz,"))
+	}
+	return out
+}
+
 func (c *Ctx) hostileWire(s *Sys, to int) []byte {
 	// structure-aware: genuine traffic of the session, damaged; headers with wild fields; garbage
 	// genuine traffic of the peer (a party's own messages reflected back would bind it to its own instance tag)
@@ -293,6 +316,7 @@ func genC13(c *Ctx) {
 	sexpInputs(c, n/3)
 	keyFileCases(c, 6)
 	// ---- Receive in every state ----
+	nestedOK := nestedFragmentsInChild(c)
 	rounds := 3
 	perState := 25
 	if c.Thorough() {
@@ -306,6 +330,19 @@ func genC13(c *Ctx) {
 			}
 			s := c13State(c, st, pol)
 			var fed []string
+			// directed: fragments whose reassembled payload is itself a fragment (in one piece and in two), in both
+			// fragment formats, with the tags the receiver expects and with foreign ones; a receiver that re-enters
+			// itself on such a payload is stopped by the stack-depth guard of the message event handler (scen.go)
+			for _, in := range nestedFragments(s, 1+r%2) {
+				if !nestedOK {
+					break
+				}
+				to := 1 + r%2
+				fed = append(fed, fmt.Sprintf("Receive(%d, %q)", to, trunc200(in)))
+				guarded(c, fmt.Sprintf("Receive(state=%d,nested-fragment)", st), in, func() { s.ps[to].c.Receive(in) })
+				c.Rep.Evaluations++
+				c.Count("nested-fragment")
+			}
 			for k := 0; k < perState; k++ {
 				to := 1 + c.R.Intn(2)
 				in := c.hostileWire(s, to)
@@ -339,6 +376,7 @@ func genC13(c *Ctx) {
 	c13RandFailure(c)
 	c13Keyless(c)
 	smpRestarts(c)
+	tlvsBehindDisconnect(c)
 	// authenticated but malicious key-exchange payloads: a peer that takes part in the exchange puts something
 	// unparsable (or somebody else's key) where its public key and signature belong, encrypted and MACed correctly
 	for _, typ := range []byte{0x02, 0x11, 0x12} {
